@@ -31,6 +31,39 @@ CHECKS = {
               "(capped at 400k per worker, so counted conservatively)"),
         assumptions=STREAM_ASSUME,
     ),
+    "C05": dict(
+        bins=["fuzz_stream", "sreplay"], replay_bin="sreplay", replay_args=["--monitor", "C05"], campaigns=_fuzz("C05", ""), level="exploration",
+        prepare="seeds",
+        rule=("coverage-guided histories (as C01, but following the documented DATA_OTHER hand-over and without data after close) with a per-transaction "
+              "lifecycle automaton evaluated on every callback: phase order per side, monotone progress (100-continue restart excepted), "
+              "request/response/transaction complete at most once, transaction-complete only after both sides, nothing after it; non-trivial = "
+              "history with a completed transaction and at least one of {callback returned non-OK, close, a call returned something other than DATA}"),
+        assumptions=STREAM_ASSUME + ["the caller follows the DATA_OTHER hand-over protocol and offers no data after closing a direction"],
+    ),
+    "C06": dict(
+        bins=["fuzz_stream", "sreplay"], replay_bin="sreplay", replay_args=["--monitor", "C06"], campaigns=_fuzz("C06", ""), level="exploration",
+        prepare="seeds",
+        rule=("accounting part, every input: at *_complete and at teardown entity_len == bytes handed to body callbacks, message_len >= entity_len "
+              "without decompression, end-of-body marker before completion for messages with a body; non-trivial = history with >=2 data calls "
+              "in which a headers callback fired"),
+        assumptions=STREAM_ASSUME + ["the caller follows the DATA_OTHER hand-over protocol and offers no data after closing a direction"],
+    ),
+    "C09": dict(
+        bins=["fuzz_stream", "sreplay"], replay_bin="sreplay", replay_args=["--monitor", "C09"], campaigns=_fuzz("C09", ""), level="exploration",
+        prepare="seeds",
+        rule=("after every data call: documented return code, DATA => consumed == len, DATA_OTHER => consumed < len, ERROR/STOP sticky with no "
+              "callbacks, byte counters == bytes of accepted calls; non-trivial = history with >=2 data calls where some call returned "
+              "DATA_OTHER/ERROR/STOP/TUNNEL/CLOSED"),
+        assumptions=STREAM_ASSUME + ["a call rejected at entry (it returns ERROR/STOP) may or may not be counted by the byte counters",
+                                     "the caller follows the DATA_OTHER hand-over protocol and offers no data after closing a direction"],
+    ),
+    "C10": dict(
+        bins=["fuzz_stream", "sreplay"], replay_bin="sreplay", replay_args=["--monitor", "C10"], campaigns=_fuzz("C10", ""), level="exploration",
+        prepare="seeds",
+        rule=("after every call: request/response line buffer <= configured hard limit (limits drawn from {16..4096, default}), transactions held "
+              "<= max_tx + 1; non-trivial = history with >=2 data calls in which a headers callback fired"),
+        assumptions=STREAM_ASSUME,
+    ),
     "C17": dict(
         bins=["c17"], replay_bin="c17", campaigns=_c17, level="exploration",
         rule=("list: every op sequence over {push,pop,shift,replace} up to depth 11 (thorough 13) on capacities 1..3 (exhaustive BFS) "
